@@ -37,16 +37,18 @@ type Scenario struct {
 	Groups  int    `json:"groups,omitempty"`
 	ExtTrig bool   `json:"exttrig,omitempty"` // abaco: external-trigger packets in the stream
 	Slow    bool   `json:"slow,omitempty"`    // abaco: 5 frames per second, so that one block spans several trigger-rate periods
+	Pulse   int    `json:"pulse,omitempty"`   // simpulse: samples per pulse (default 400; 2000 with records of 400 for edge-multi triggering)
 	Seed    uint64 `json:"seed"`              // perturbation seed (race runs)
 	Ops     []Op   `json:"ops"`
 }
 
 // Hooks are installed for the duration of a run (nil: none).
 type Hooks struct {
-	Point  func(name string)
-	Access func(loc string, write bool)
-	Return func()     // called on the client's goroutine when a request has returned
-	Blocks func() int // blocks received by the core loop so far (nil: ask the core loop through a request)
+	Point   func(name string)
+	Access  func(loc string, write bool)
+	Started func()     // called once Start has returned
+	Return  func()     // called on the client's goroutine when a request has returned
+	Blocks  func() int // blocks received by the core loop so far (nil: ask the core loop through a request)
 }
 
 // Outcome of a run.
@@ -186,6 +188,9 @@ type runner struct {
 	srcName string
 	h       Hooks
 	names   []string
+	reqs    chan func() error // the ONE client goroutine executes the requests in order
+	resp    chan error
+	started bool
 }
 
 func (r *runner) fail(format string, a ...interface{}) {
@@ -194,16 +199,14 @@ func (r *runner) fail(format string, a ...interface{}) {
 
 // call runs one request with a watchdog: a request that never returns is reported, not waited for.
 func (r *runner) call(name string, f func() error) bool {
-	ch := make(chan error, 1)
-	go func() {
-		err := f()
-		if r.h.Return != nil {
-			r.h.Return()
-		}
-		ch <- err
-	}()
+	if r.reqs == nil {
+		r.reqs = make(chan func() error)
+		r.resp = make(chan error, 1)
+		go r.client()
+	}
+	r.reqs <- f
 	select {
-	case err := <-ch:
+	case err := <-r.resp:
 		if err != nil {
 			r.out.OpErrs++
 		}
@@ -211,6 +214,18 @@ func (r *runner) call(name string, f func() error) bool {
 	case <-time.After(20 * time.Second):
 		r.out.Stuck = name
 		return false
+	}
+}
+
+// client is the single client thread: a long-lived goroutine, so that the race detector keeps what it
+// did (the accesses of short-lived goroutines are forgotten when their slot is re-used).
+func (r *runner) client() {
+	for f := range r.reqs {
+		err := f()
+		if r.h.Return != nil {
+			r.h.Return()
+		}
+		r.resp <- err
 	}
 }
 
@@ -282,8 +297,12 @@ func (r *runner) start(repo string, ticks int) error {
 		}
 	case "simpulse":
 		r.srcName = "SIMPULSESOURCE"
+		pulse := r.s.Pulse
+		if pulse <= 0 {
+			pulse = 400
+		}
 		cfg := dastard.SimPulseSourceConfig{Nchan: r.s.Nchan, SampleRate: 200000, Pedestal: 1000,
-			Amplitudes: []float64{5000, 8000}, Nsamp: 400}
+			Amplitudes: []float64{5000, 8000}, Nsamp: pulse}
 		if err := r.sc.ConfigureSimPulseSource(&cfg, &ok); err != nil {
 			return err
 		}
@@ -300,7 +319,12 @@ func (r *runner) start(repo string, ticks int) error {
 	default:
 		return fmt.Errorf("unknown source %q", r.s.Source)
 	}
-	return r.sc.Start(&r.srcName, &ok)
+	// Start runs on the client goroutine like every other request
+	var err error
+	if !r.call("start", func() error { err = r.sc.Start(&r.srcName, &ok); return err }) {
+		return fmt.Errorf("Start did not return")
+	}
+	return err
 }
 
 func (r *runner) op(o Op) bool {
@@ -378,6 +402,76 @@ func (r *runner) op(o Op) bool {
 		}
 		var reply string
 		return r.call(o.Op, func() error { return sc.StoreRawDataBlock(n, &reply) })
+	case "storeseq":
+		// N requests, each issued as soon as the previous one has been filled (a request is refused while
+		// an archive is being filled: ask until accepted), of equal, then shrinking sizes: the writer
+		// goroutine of request k is still at work when request k+1 starts to be filled
+		size := 3000
+		if r.s.Source == "abaco" {
+			size = 30
+		}
+		n := o.N
+		if n <= 0 {
+			n = 3
+		}
+		for k := 0; k < n; k++ {
+			if k >= 2 {
+				size = size * 2 / 3
+			}
+			deadline := time.Now().Add(10 * time.Second)
+			for {
+				var reply string
+				var err error
+				sz := size
+				if !r.call(o.Op, func() error { err = sc.StoreRawDataBlock(sz, &reply); return nil }) {
+					return false
+				}
+				if err == nil {
+					break
+				}
+				if r.done != nil {
+					select {
+					case <-r.done:
+						return true
+					default:
+					}
+				}
+				if time.Now().After(deadline) {
+					r.fail("archive request %d never accepted: %v", k, err)
+					return false
+				}
+				pause := 500 * time.Microsecond
+				if r.s.Source == "abaco" {
+					pause = 10 * time.Millisecond // 50 ms blocks
+				} else if r.h.Blocks != nil {
+					pause = 2 * time.Millisecond // conformance: every attempt is a handful of log events
+				}
+				time.Sleep(pause)
+			}
+		}
+		return true
+	case "stall":
+		// one slow request: the core loop is busy for N ms while the producer keeps producing
+		d := time.Duration(o.N) * time.Millisecond
+		if d <= 0 {
+			d = 400 * time.Millisecond
+		}
+		return r.call(o.Op, func() error { return r.ctl.VerifC17Stall(d) })
+	case "emt":
+		// edge-multi triggering (records of 400 samples, 100 pre-trigger), level N
+		so := dastard.SizeObject{Nsamp: 400, Npre: 100}
+		if !r.call("lengths", func() error { return sc.ConfigurePulseLengths(so, &ok) }) {
+			return false
+		}
+		level := int32(o.N)
+		if level <= 0 {
+			level = 300
+		}
+		fts := dastard.FullTriggerState{ChannelIndices: all}
+		fts.EdgeMulti = true
+		fts.EdgeMultiLevel = level
+		fts.EdgeMultiVerifyNMonotone = 1
+		return r.call(o.Op, func() error { return sc.ConfigureTriggers(&fts, &ok) })
 	case "lengths":
 		so := dastard.SizeObject{Nsamp: nsamp + 2*(o.N%2), Npre: npre}
 		return r.call(o.Op, func() error { return sc.ConfigurePulseLengths(so, &ok) })
@@ -402,6 +496,12 @@ func ticksFor(s Scenario) int {
 		t += 2
 		if o.Op == "wait" {
 			t += o.N
+		}
+		if o.Op == "stall" {
+			t += 12 + o.N/50
+		}
+		if o.Op == "storeseq" {
+			t += 4 * (o.N + 3)
 		}
 	}
 	return t
@@ -436,6 +536,9 @@ func Run(s Scenario, h Hooks, dir string, repo string) Outcome {
 		r.fail("start: %v", err)
 		ctl.Close()
 		return r.out
+	}
+	if h.Started != nil {
+		h.Started()
 	}
 	r.names = append([]string(nil), r.sc.ActiveSource.ChannelNames()...)
 	alive := true
